@@ -111,8 +111,11 @@ XLib == <<"export class Pt {", "	q: str", "	constructor(self, q: str) {", "		sel
           \* a class that is *not* exported, declared after an exported one
           "class Hidden {", "	z: int", "	constructor(self) {", "		self.z = 1", "	}", "}",
           "const hidden_k: int = 3",          \* a constant that is not exported
-          "export mkpt: fn() -> Pt = fn() -> Pt { return Pt(\"o\") }">>
-XSites == {"arg", "init", "reassign", "ret", "field", "hidden_member", "hidden_import", "hidden_const_member", "hidden_const_import"}
+          "export mkpt: fn() -> Pt = fn() -> Pt { return Pt(\"o\") }",
+          \* an optional export keeps its `?` whichever way it is imported
+          "export tries: int? = nil", "export lim: int = 4">>
+XSites == {"arg", "init", "reassign", "ret", "field", "hidden_member", "hidden_import", "hidden_const_member", "hidden_const_import",
+           "opt_import_init", "opt_member_init", "opt_import_arg", "opt_member_arg"}
 XLines(site, bad) ==
     LET v == IF bad THEN "lib.mkpt()" ELSE "Pt(2)" IN
     CASE site = "arg" -> <<"taker = fn(p: Pt) -> int { return p.q }", "flt = taker(" \o v \o ")" \o (IF bad THEN M ELSE "")>>
@@ -123,12 +126,17 @@ XLines(site, bad) ==
       [] site = "hidden_import" -> IF bad THEN <<"import Hidden from lib" \o M>> ELSE <<"import mkpt from lib">>
       [] site = "hidden_const_member" -> IF bad THEN <<"flt = lib.hidden_k" \o M>> ELSE <<"flt = lib.mkpt">>
       [] site = "hidden_const_import" -> IF bad THEN <<"import hidden_k from lib" \o M>> ELSE <<"import mkpt from lib">>
+      [] site = "opt_import_init" -> IF bad THEN <<"import tries from lib", "flt: int = tries" \o M>> ELSE <<"import lim from lib", "flt: int = lim">>
+      [] site = "opt_member_init" -> IF bad THEN <<"flt: int = lib.tries" \o M>> ELSE <<"flt: int = lib.lim">>
+      [] site = "opt_import_arg" -> <<"taker2 = fn(p: int) -> int { return p }"
+                                      >> \o (IF bad THEN <<"import tries from lib", "flt = taker2(tries)" \o M>> ELSE <<"import lim from lib", "flt = taker2(lim)">>)
+      [] site = "opt_member_arg" -> <<"taker2 = fn(p: int) -> int { return p }", "flt = taker2(lib." \o (IF bad THEN "tries)" \o M ELSE "lim)")>>
       [] site = "field" -> <<"class Holder {", "	p: Pt", "	constructor(self) {", "		self.p = Pt(1)", "	}", "}", "hd = Holder()", "hd.p = " \o v \o (IF bad THEN M ELSE "")>>
 
 VARIABLE x
 Init == x \in {y \in TypedCases : TypedValid(y)}
            \cup ({[kind |-> "xmod", site |-> st, ctx |-> c] : st \in XSites, c \in {"module", "fn"}}
-                 \ {[kind |-> "xmod", site |-> st, ctx |-> "fn"] : st \in {"hidden_import", "hidden_const_import"}})
+                 \ {[kind |-> "xmod", site |-> st, ctx |-> "fn"] : st \in {"hidden_import", "hidden_const_import", "opt_import_init", "opt_import_arg"}})
            \cup {[kind |-> "fixed", f |-> f, ctx |-> c] : f \in Fixed, c \in Contexts}
            \cup {y \in OpCases : OpUnsupported(y.op, y.l, y.r)}
 Next == UNCHANGED x
